@@ -1,2 +1,37 @@
+(* C14 - the versions of an API form a coherent family.  Per-tree instance theorem:
+   inst/InstC14.v (c14_ok over all classes).  Here: what the boolean gives. *)
 From Coq Require Import ZArith List Bool String.
-From KioV Require Import Schema.Raw Schema.Coherence.
+From KioV Require Import Schema.Raw Schema.Coherence Schema.CoherenceProofs.
+Import ListNotations.
+
+Theorem c14_lift : forall cs, c14_ok cs = true ->
+  (forall c, In c cs -> class_attrs_ok c = true /\ module_ok cs c = true) /\
+  (forall e, In e (top_entries cs) -> family_ok (top_entries cs) e = true).
+Proof. exact c14_ok_forall. Qed.
+Print Assumptions c14_lift.
+
+(* version numbers are contiguous: every version between a family's minimum and any member exists *)
+Theorem c14_versions_contiguous : forall es, (forall e, In e es -> family_ok es e = true) ->
+  forall e, In e es -> forall v,
+  (fold_left Z.min (map fe_version (filter (in_family e) es)) (fe_version e) <= v <= fe_version e)%Z ->
+  exists f, In f es /\ in_family e f = true /\ fe_version f = v.
+Proof. exact family_versions_contiguous. Qed.
+Print Assumptions c14_versions_contiguous.
+
+Theorem c14_flexibility_never_reverts : forall es e f, family_ok es e = true -> In f es -> in_family e f = true ->
+  (fe_version e < fe_version f)%Z -> fe_flexible e = true -> fe_flexible f = true.
+Proof. exact family_ok_flexibility_monotone. Qed.
+Theorem c14_key_constant : forall es e f, family_ok es e = true -> In f es -> fe_api f = fe_api e ->
+  opt_z_eqb (fe_key f) (fe_key e) = true.
+Proof. exact family_ok_key_constant. Qed.
+Theorem c14_key_unique_to_api : forall es e f k, family_ok es e = true -> In f es -> fe_key e = Some k -> fe_key f = Some k ->
+  fe_api f = fe_api e.
+Proof. exact family_ok_key_unique. Qed.
+Theorem c14_request_has_response : forall es e, family_ok es e = true -> fe_type e = ETRequest ->
+  exists f, In f es /\ fe_api f = fe_api e /\ fe_type f = ETResponse /\ fe_version f = fe_version e.
+Proof. exact family_ok_request_has_response. Qed.
+Theorem c14_response_has_request : forall es e, family_ok es e = true -> fe_type e = ETResponse ->
+  exists f, In f es /\ fe_api f = fe_api e /\ fe_type f = ETRequest /\ fe_version f = fe_version e.
+Proof. exact family_ok_response_has_request. Qed.
+Print Assumptions c14_flexibility_never_reverts.
+Print Assumptions c14_request_has_response.
